@@ -29,3 +29,4 @@ def rules(ctx):
     S.untracked_allocation_rules(ctx)
     S.after_bound_rules(ctx)
     S.durability_guard_rules(ctx)
+    S.survey2_rules(ctx)
